@@ -9,22 +9,22 @@ package zkdec
 //@ pred shaped(p *Proof) := p.group != nil && p.Commitment != nil && p.Gamma != nil
 
 //@ func Empty
-//@   nopanic[C05]
+//@   nopanic[C10]
 //@   requires group != nil
 //@   modifies nothing
 //@   allocates
 //@   ensures result != nil && shaped(result)
 
 //@ func (*Proof).IsValid
-//@   nopanic[C05]
+//@   nopanic[C10]
 //@   inline
 //@   requires public.C != nil && public.X != nil && pkok(public.Prover) && pedok(public.Aux) && (p != nil ==> shaped(p))
 
 //@ func (*Proof).Verify
-//@   nopanic[C05]
+//@   nopanic[C10]
 //@   requires hash != nil && hash.h != nil && public.C != nil && public.X != nil && pkok(public.Prover) && pedok(public.Aux) && (p != nil ==> shaped(p))
 
 //@ func challenge
-//@   nopanic[C05]
+//@   nopanic[C10]
 //@   inline
 //@   requires hash != nil && hash.h != nil && group != nil && public.C != nil && public.X != nil && pkok(public.Prover) && pedok(public.Aux) && commitment != nil
